@@ -498,26 +498,39 @@ protected:
 
         // insert a new entry as the first position in the bucket
         Entry&  newEntry = m_freeEntries.back();
-        newEntry.erased = false;
 
+        // The entry may be one that was erased, and its old bucket
+        // may still refer to it, so it must look erased until both
+        // the key and the value have been constructed.
         FirstConstructor::construct(
             const_cast<key_type*>(&newEntry.value->first),
             key,
             *m_memoryManager);
 
-        if (data != 0)
+        try
         {
-            SecondConstructor::construct(
-                &newEntry.value->second,
-                *data,
-                *m_memoryManager);
+            if (data != 0)
+            {
+                SecondConstructor::construct(
+                    &newEntry.value->second,
+                    *data,
+                    *m_memoryManager);
+            }
+            else
+            {
+                 SecondConstructor::construct(
+                     &newEntry.value->second,
+                     *m_memoryManager);
+            }
         }
-        else
+        catch(...)
         {
-             SecondConstructor::construct(
-                 &newEntry.value->second,
-                 *m_memoryManager);
+            const_cast<key_type*>(&newEntry.value->first)->~key_type();
+
+            throw;
         }
+
+        newEntry.erased = false;
 
         // Add the new entry to its bucket before moving it to the
         // list of entries.  That way, if growing the bucket fails,
